@@ -323,7 +323,14 @@ def run(repo, chk):
                 local.add(n.id)
             if isinstance(n, ast.ExceptHandler) and n.name:
                 local.add(n.name)
-        glob_names = {n.id for n in ast.walk(proc) if isinstance(n, ast.Name)} - local - set(dir(_bi))
+        # names bound at module level by class / def / import are code, not state; a memo would be a module-level variable
+        mod_code = set()
+        for st_ in repo.module(RULES).body:
+            if isinstance(st_, (ast.ClassDef, ast.FunctionDef, ast.AsyncFunctionDef)):
+                mod_code.add(st_.name)
+            elif isinstance(st_, (ast.Import, ast.ImportFrom)):
+                mod_code |= {(a_.asname or a_.name).split('.')[0] for a_ in st_.names}
+        glob_names = {n.id for n in ast.walk(proc) if isinstance(n, ast.Name)} - local - set(dir(_bi)) - mod_code
         ok = ok and not glob_names and not any(isinstance(n, (ast.Global, ast.Nonlocal)) for n in ast.walk(proc))
     chk.expect(ok, 'C06.P1', 'Parser.process', 'must start a fresh coroutine (`coro = self.consume()`) and use no state besides '
                'consume/backtrack: a memo keyed without the context would let the second parse of a ?? operand reuse the first', RULES)
@@ -335,7 +342,11 @@ def run(repo, chk):
                  if isinstance(n, (ast.Assign, ast.AnnAssign)) and isinstance(getattr(n, 'value', None), (ast.Dict, ast.List, ast.Set, ast.Call))]
     chk.expect(not mod_state, 'C06.P1', 'rules.py module state', f'module-level mutable state {mod_state}', RULES)
     tp = repo.methods(RULES, 'Teleport').get('process')
-    chk.expect(tp is not None and [src(n.value) for n in ast.walk(tp) if isinstance(n, ast.Return)] == ['(start, self.node)'], 'C06.P1',
+    def _pair(v):
+        # (start, self.node) as a tuple or as the arguments of a result-pair class
+        elts = v.elts if isinstance(v, ast.Tuple) else (v.args if isinstance(v, ast.Call) and not v.keywords else [])
+        return [src(x) for x in elts]
+    chk.expect(tp is not None and [_pair(n.value) for n in ast.walk(tp) if isinstance(n, ast.Return)] == [['start', 'self.node']], 'C06.P1',
                'Teleport.process', 'returns to the saved position', RULES)
     # flavour identity in the typechecker: the builtins that never complete (!is_defeat, all_is_win, all_is_broken) are
     # recognised by their exact flavoured name, so a user function of another flavour with the same base name is an ordinary
